@@ -149,6 +149,7 @@ def search(prop, family, meta, tier, seed, workers, budget, binary, scratch, t0,
     outs = []
     trouble = []
     crashes = []
+    salvaged = []
     for i, p, env in procs:
         so, se = p.communicate()
         outp = env["VERIF_OUT"]
@@ -157,7 +158,12 @@ def search(prop, family, meta, tier, seed, workers, budget, binary, scratch, t0,
             o["_stderr"] = se
             outs.append(o)
             continue
-        # crashed or stalled worker
+        # crashed or stalled worker: keep what it had found before
+        try:
+            for line in open(outp + ".fail"):
+                salvaged.append(json.loads(line))
+        except OSError:
+            pass
         cur = None
         try:
             b = open(env["VERIF_PROGRESS"], "rb").read(8)
@@ -175,7 +181,7 @@ def search(prop, family, meta, tier, seed, workers, budget, binary, scratch, t0,
             trouble.append("worker %d stalled at seed %s (stack dump: %s)" % (i, cur, dst))
         else:
             crashes.append((cur, (se or "")[-6000:], p.returncode))
-    if not outs and not crashes:
+    if not outs and not crashes and not salvaged:
         for t in trouble:
             log("HARNESS:", t)
         return 2
@@ -195,6 +201,9 @@ def search(prop, family, meta, tier, seed, workers, budget, binary, scratch, t0,
             fail_counts[k] = fail_counts.get(k, 0) + v
         failures.extend(o.get("failures") or [])
         samples.extend(o.get("samples") or [])
+    for f in salvaged:
+        failures.append(f)
+        fail_counts[f["class"]] = fail_counts.get(f["class"], 0) + 1
     shapes = set()
     for i in range(workers):
         sp = os.path.join(scratch, "w%d.shapes" % i)
